@@ -170,14 +170,130 @@ def state_check(sd, hist):
 
 def replay(doc):
     c = doc["case"]
+    if c.get("kind"):
+        r = check_extra(c)
+        for sig, det in r.viol:
+            print("  ", sig, det)
+        return [s_ for s_, _ in r.viol]
     v = state_check(c["seed"], c["hist"])
     for sig, det in v:
         print("  ", sig, det)
     return [tuple(str(x) for x in s_) for s_, _ in v]
 
 
+def check_extra(case):
+    """histories that the edit explorer does not produce: (a) two System objects built from the SAME component objects, the second one edited --
+    the first one's reports are those of its structure; (b) a system loaded from a file in the layout of release 1.0.x (no groups / rails tables),
+    then edited with group= / rail= arguments, a rename and a delete -- the reports are those of the final structure built from scratch."""
+    import json, os, copy
+    from ..common import Res, quiet_call, workdir
+    from ..reports import all_reports, diff_reports
+    from sysloss.system import System
+    res = Res()
+    sd, hist = case["seed"], case.get("hist", [])
+    if case["kind"] == "shared":
+        s0, _g = e2.replay(sd, hist)
+        want = all_reports(s0, REPORTS)
+        A = B = None
+        for op in e2.SEEDS[sd] + list(hist):   # replay the same ops on two systems with shared component objects
+            pass
+        # build A and B from the component objects of s0 (B with shifted node indices), then edit B
+        comps = [(n, s0._g[i]) for n, i in s0._g.attrs["nodes"].items()]
+        order = [n for n in e2.kstruct(s0)["comps"]]
+        st = e2.kstruct(s0)["comps"]
+        def mk(shift):
+            s = None
+            done = []
+            names = [n for n in st if st[n]["letter"] == "S"]
+            for n in names:
+                if s is None:
+                    s = System("t", dict(comps)[n], rail=st[n]["rail"], group=st[n]["group"])
+                    if shift:
+                        from sysloss.components import ILoad
+                        s.add_comp(n, comp=ILoad("__shift", ii=0.001))
+                else:
+                    s.add_source(dict(comps)[n], rail=st[n]["rail"], group=st[n]["group"])
+                done.append(n)
+            rem = [n for n in st if n not in done]
+            while rem:
+                for n in list(rem):
+                    if all(p in done for p in st[n]["parents"]):
+                        ps = st[n]["parents"]
+                        s.add_comp(ps if len(ps) > 1 else ps[0], comp=dict(comps)[n], rail=st[n]["rail"], group=st[n]["group"])
+                        done.append(n)
+                        rem.remove(n)
+            ph = json.loads(e2.kstruct(s0)["phases"])
+            if ph:
+                s.set_sys_phases(ph)
+            for n in st:
+                pc = json.loads(st[n]["pc"])
+                if pc:
+                    s.set_comp_phases(n, pc)
+            return s
+        try:
+            A, B = mk(False), mk(True)
+            B.solve() if False else None
+            for n in list(st):          # edit B: every component replaced under its own name by a fresh object of another value; one leaf deleted
+                if st[n]["letter"] in ("R", "C", "S"):
+                    B.change_comp(n, comp=e2.LET[{"R": "C", "C": "R", "S": "S"}[st[n]["letter"]]](n) if st[n]["letter"] != "S" else __import__("sysloss.components", fromlist=["Source"]).Source(n, vo=9.0), rail=st[n]["rail"], group=st[n]["group"])
+                    break
+            B.del_comp("__shift")
+            quiet_call(B.save, os.path.join(workdir("c16"), "b.json"))
+        except ValueError:
+            pass
+        except Exception as e:
+            res.v((PROP + ".shared-objects-raise", type(e).__name__), str(e)[:200])
+            return res
+        got = all_reports(A, REPORTS)
+        for rep, d in diff_reports(want, got)[:4]:
+            res.v((PROP + ".shared-component-objects", rep), "system A (never edited) after system B, built from the same component objects, was edited: %s" % d)
+        # A's file loads back into A
+        try:
+            pth = os.path.join(workdir("c16"), "a.json")
+            A.save(pth)
+            A2, _ = quiet_call(System.from_file, pth)
+            for rep, d in diff_reports(want, all_reports(A2, REPORTS), 1e-9, 1e-12)[:3]:
+                res.v((PROP + ".shared-component-objects", "save", rep), "%s" % d)
+        except Exception as e:
+            res.v((PROP + ".shared-component-objects", "save-raises", type(e).__name__), str(e)[:200])
+    else:   # oldfile
+        s0, _g = e2.replay(sd, hist)
+        pth = os.path.join(workdir("c16"), "old.json")
+        s0.save(pth)
+        doc = json.load(open(pth))
+        doc["system"].pop("groups", None)
+        doc["system"].pop("rails", None)
+        doc["system"]["version"] = "1.0.0"
+        json.dump(doc, open(pth, "w"))
+        src0 = [n for n, r_ in e2.kstruct(s0)["comps"].items() if r_["letter"] == "S"][0]
+        edits = [["ac", src0, "R", "Zn", "Zr", "Zg"], ["cc", "Zn", "C", "Zm", "Zq", "Zh"], ["ac", "Zq", "I", "Zl", "", "Zg"], ["dc", "Zl", True]]
+        try:
+            s1, _ = quiet_call(System.from_file, pth)
+            s2, _g2 = e2.replay(sd, hist)
+            for op in edits:
+                e2.apply(s1, op)
+                e2.apply(s2, op)
+                got, want = all_reports(s1, REPORTS), all_reports(s2, REPORTS)
+                for rep, d in diff_reports(want, got, 1e-9, 1e-12)[:3]:
+                    res.v((PROP + ".old-format-file-then-edits", rep, op[0]), "after %r: %s" % (op, d))
+                if res.viol:
+                    break
+        except Exception as e:
+            res.v((PROP + ".old-format-file-then-edits", "raises", type(e).__name__), str(e)[:200])
+    res.nontrivial = 1
+    res.classes.add(case["kind"])
+    return res
+
+
 def main(tier):
     run = Run(PROP, tier, replay)
+    extra = []
+    for sd in e2.SEEDS:
+        if sd not in ("blank",):
+            extra.append(dict(kind="shared", seed=sd))
+        if sd not in ("rails", "railmux", "rerail", "blank"):
+            extra.append(dict(kind="oldfile", seed=sd))
+    run.map(check_extra, extra, chunk=1, family="extra")
     D, B = (2, 2) if tier == "quick" else (3, 2)
     if tier == "quick":  # budget 1 from every seed, budget 2 from the three richest seeds
         st = e2.explore(run, list(e2.SEEDS), 2, 1, letters="RIM", state_check=state_check, phase_ops=True, analysis_op=True)
